@@ -203,19 +203,60 @@ def make_world(seed, root):
         for j, gid in enumerate(("zeta_gene_%d" % k, "Alpha.gene-%d" % k)):
             n = len(g["pool"]); keep = [0] + [i for i in range(1, n - 1) if (i + j) % 2 == 0] + [n - 1]
             w.genes.append(dict(id=gid, chr=g["chr"], strand=g["strand"], pool=g["pool"], isoforms={gid + ".T0": keep, gid + ".T1": list(range(n))}, start=g["start"], end=g["end"]))
+    # a twin chromosome: a copy of chrA's sequence with ONE annotated gene at exactly the coordinates (and strand) of a multi-exon chrA gene, whose splice-site dinucleotides are
+    # replaced by non-canonical ones: the same (intron, strand) is canonical on chrA and not on the twin (a per-process cache keyed without the chromosome answers wrongly)
+    src_g = next(g for g in w.genes if g["chr"] == "chrA" and len(g["pool"]) >= 3 and g["id"].startswith("chrA_"))
+    seq = list(w.chroms["chrA"])
+    for a, b in zip(src_g["pool"][:-1], src_g["pool"][1:]):
+        l, r = a[1] + 1, b[0] - 1; seq[l - 1:l + 1] = "AA"; seq[r - 2:r] = "TT"
+    w.chroms["chrT"] = "".join(seq)
+    w.genes.append(dict(id="twin_G", chr="chrT", strand=src_g["strand"], pool=src_g["pool"], isoforms={"twin_G.T0": list(range(len(src_g["pool"])))}, start=src_g["start"], end=src_g["end"]))
     w.reads_from_annotation(per_isoform=4); w.novel_reads()
+    for i, r in enumerate(w.reads): r["tags"].update(CB="cell%d" % (i % 7), UB="umi%d" % i, NM=i % 5, XG="g%d" % (i % 3), XQ=i % 11)      # for --bam_tags
     gs = [g for g in w.genes if len(g["pool"]) > 1]; ga = [g for g in gs if g["chr"] == "chrA"]; gb = [g for g in gs if g["chr"] == "chrB"]
     if ga and gb:
         for i in range(3):
             for g in (ga[0], gb[0]):
                 tid = list(g["isoforms"])[0]; w.add_read("mm_%d" % i, g["chr"], [g["pool"][j] for j in g["isoforms"][tid]], g["strand"], flag=256 if g is gb[0] else 0, tags={"RG": "mid"})
-    ren = {"chrA": "chr10", "chrB": "chr2", "chrC": "chrX", "chrD": "chr1", "chrE": "chrM_2"}
+    ren = {"chrA": "chr10", "chrB": "chr2", "chrC": "chrX", "chrD": "chr1", "chrE": "chrM_2", "chrT": "chr7"}
     w.chroms = {ren[c]: s for c, s in w.chroms.items()}
     for g in w.genes: g["chr"] = ren[g["chr"]]
     for r in w.reads: r["chr"] = ren[r["chr"]]
     d = os.path.join(root, "w"); reads = w.reads; w.reads = []; w.write(d, n_bams=0); bam = os.path.join(d, "reads.bam"); write_bam(w, reads, bam, unmapped=3)
     index_fasta(os.path.join(d, "genome.fa"))
+    with open(os.path.join(d, "groups.tsv"), "w") as f:
+        for r in reads:
+            if r["tags"].get("RG"): f.write("%s\t%s\n" % (r["name"], r["tags"]["RG"]))
     return d, bam
+
+
+# options that exercise the code of a file in which the static scan found an unreviewed site (the default sweep already runs with --read_group, --count_exons, --sqanti_output,
+# --check_canonical, --counts_format both, --bam_tags); each entry replaces / adds options of the generated-data command line
+FILE_OPTIONS = {
+    "src/read_groups.py": [["--read_group", "read_id:_"], ["--read_group", "file:<table>:0:1"], ["--read_group", "file_name"]],
+    "src/long_read_counter.py": [["--counts_format", "linear", "--transcript_quantification", "all", "--gene_quantification", "all"], ["--normalization_method", "usable_reads", "--read_group", "read_id:_"]],
+    "src/assignment_io.py": [["--no_gzip"], ["--read_group", "file:<table>:0:1"]],
+    "src/graph_based_model_construction.py": [["--model_construction_strategy", "sensitive_ont", "--report_novel_unspliced", "true"], ["--report_canonical", "all", "--polya_requirement", "never"]],
+    "src/intron_graph.py": [["--model_construction_strategy", "sensitive_ont", "--report_novel_unspliced", "true"]],
+    "src/long_read_assigner.py": [["--matching_strategy", "precise"], ["--matching_strategy", "loose"]],
+    "isoquant.py": [["--polya_requirement", "never", "--matching_strategy", "precise"], ["--model_construction_strategy", "sensitive_ont"]],
+}
+DEFAULT_EXTRA = [["--model_construction_strategy", "sensitive_ont", "--report_novel_unspliced", "true"], ["--read_group", "read_id:_"]]
+
+
+def with_options(args, extra):
+    """args with the options of `extra` replaced (options that take values are given as option, value, ...)"""
+    out = list(args); i = 0
+    while i < len(extra):
+        opt = extra[i]; vals = []
+        i += 1
+        while i < len(extra) and not extra[i].startswith("--"): vals.append(extra[i]); i += 1
+        if opt in out:
+            k = out.index(opt); e = k + 1
+            while e < len(out) and not out[e].startswith("--"): e += 1
+            out[k:e] = [opt] + vals
+        else: out += [opt] + vals
+    return out
 
 
 def gene_list_only(A, B, diffs):
@@ -237,8 +278,8 @@ def sweep(ctx, quick):
     try:
         wd, wbam = make_world(23 if quick else 23 + 100 * ctx.seed, root)
         bd = os.path.join(root, "b"); b = P.bundled(bd); b["fasta"] = plain_fasta(b["fasta"])
-        data = {"generated": ["--bam", wbam, "--reference", os.path.join(wd, "genome.fa"), "--genedb", os.path.join(wd, "annotation.gtf"), "--read_group", "tag:RG"],
-                "bundled": ["--bam", b["bam"], "--reference", b["fasta"], "--genedb", b["gtf"], "--read_group", "file:%s:0:1" % b["groups"]]}
+        data = {"generated": ["--bam", wbam, "--reference", os.path.join(wd, "genome.fa"), "--genedb", os.path.join(wd, "annotation.gtf"), "--read_group", "tag:RG", "--bam_tags", "RG,CB,UB,NM,XG,XQ"],
+                "bundled": ["--bam", b["bam"], "--reference", b["fasta"], "--genedb", b["gtf"], "--read_group", "file:%s:0:1" % b["groups"], "--bam_tags", "NM,AS,tp,ms,nn,s1"]}
         common = ["--complete_genedb", "--data_type", "nanopore", "-p", "OUT", "--count_exons", "--sqanti_output", "--check_canonical", "--counts_format", "both"]
         intense = any(getattr(ctx, "new_sites", {}).get(k) for k in ("order", "state"))
         if intense:
@@ -250,6 +291,19 @@ def sweep(ctx, quick):
         else:
             configs = [(1, 0, 0, 0)] + [(t, s, hm, kt) for t in (1, 2, 5, 16) for s in (0, 1, 2, 3) for hm in (0, 1) for kt in (0, 1)] + [(3, 7, 0, 0), (16, 8, 1, 1)]
         jobs = []
+        if intense:
+            # option sets that exercise the files in which the unreviewed sites are (generated data; threads 1 / 3 / 16, three hash seeds, both memory modes)
+            flagged = sorted(set(e["file"] for k in ("order", "state") for e in ctx.new_sites.get(k, [])))
+            extras = []
+            for f in flagged:
+                for x in FILE_OPTIONS.get(f, DEFAULT_EXTRA):
+                    if x not in extras: extras.append(x)
+            for vi, x in enumerate(extras):
+                x = [a.replace("<table>", os.path.join(wd, "groups.tsv")) for a in x]
+                for k, (t, hs, hm, kt) in enumerate(((1, 0, 0, 0), (1, 1, 1, 0), (3, 0, 0, 0), (16, 2, 1, 0), (2, 3, 0, 1))):
+                    jobs.append(dict(data="generated", variant="options %d" % vi, threads=t, hashseed=str(hs), hm=hm, kt=kt, out=os.path.join(root, "variant%d_%d" % (vi, k)),
+                                     args=with_options(data["generated"] + common, x) + ["--threads", str(t)] + (["--high_memory"] if hm else []) + (["--keep_tmp"] if kt else [])))
+            ctx.notes.append("sweep intensified: %d extra option sets for the files with unreviewed sites (%s)" % (len(extras), ", ".join(flagged)))
         for dn, dargs in data.items():
             for k, (t, hs, hm, kt) in enumerate(configs):
                 jobs.append(dict(data=dn, threads=t, hashseed=str(hs), hm=hm, kt=kt, out=os.path.join(root, "%s_%d" % (dn, k)),
@@ -276,8 +330,8 @@ def sweep(ctx, quick):
             if intense: r["unreviewed sites found by the static scan"] = [e["site"] for k in ("order", "state") for e in ctx.new_sites.get(k, [])]
             r.update(kw); return r
         n_cmp = 0; n_multi = 0
-        for dn in data:
-            js = [j for j in jobs if j["data"] == dn and not j.get("corpus")]
+        for dn, variant in [(dn, None) for dn in data] + [("generated", v) for v in dict.fromkeys(j["variant"] for j in jobs if j.get("variant"))]:
+            js = [j for j in jobs if j["data"] == dn and not j.get("corpus") and j.get("variant") == variant]
             for j in js:
                 if j["rc"] != 0: ctx.violation(None, "IsoQuant run failed (exit %d)" % j["rc"], rep(j, log=j["log"][-1500:]))
             js = [j for j in js if j["rc"] == 0]
@@ -301,8 +355,9 @@ def sweep(ctx, quick):
                                   rep(j, log=j["log"][-600:]))
                 else:
                     ctx.violation(None, "IsoQuant run with experiment name S failed (exit %d)" % j["rc"], rep(j, log=j["log"][-1500:]))
-        ctx.rule("sweep: the bundled chr9 data and a generated data set (5 chromosomes named chr10 / chr2 / chrX / chr1 / chrM_2, RG read groups, reads aligned to two chromosomes, 3 unaligned "
-                 "records, three loci where three genes share every exon) with --read_group, --count_exons, --sqanti_output, --check_canonical, --counts_format both; configurations "
+        ctx.rule("sweep: the bundled chr9 data and a generated data set (6 chromosomes named chr10 / chr2 / chrX / chr1 / chrM_2 / chr7, RG read groups, reads aligned to two chromosomes, 3 unaligned "
+                 "records, three loci where three genes share every exon, a twin chromosome chr7 = copy of chr10 with one gene at identical coordinates and strand but non-canonical splice "
+                 "sites, six BAM tags per read) with --read_group, --count_exons, --sqanti_output, --check_canonical, --counts_format both, --bam_tags with six tags; configurations "
                  "(threads, PYTHONHASHSEED, --high_memory, --keep_tmp) = %s, the first one twice (repetition); every file of <out>/OUT/ compared byte for byte (after decompression, "
                  "without the '# Command line:' line) with the first run; two more runs of the generated data start with pre-seeded class-level state (props/c10_seed.py: foreign isoform ids in detected_known_isoforms, the assignment / feature id counters advanced) and must give the same files; %d runs, %d file comparisons, %d multi-gene exon rows in the baselines"
                  % ("the baseline twice + all 16 (threads, seed) pairs over {1,2,5,16} x {0,1,2,3} with --high_memory / --keep_tmp alternating" if quick else "the full 4 x 4 x 2 x 2 grid + 2", len(jobs), n_cmp, n_multi))
